@@ -204,30 +204,8 @@ def s5(ctx, rep):
                 used = [i for i, e in enumerate(t_) if isinstance(e, ast.Name) and e.id != "_"
                         and any(isinstance(y, ast.Attribute) and isinstance(y.value, ast.Name) and y.value.id == e.id for y in walk_shallow(m_.node))]
                 ok = ok and all(i == pos[0] for i in used)
-    g3 = P.method("HyperbandBracketManager", "_get_rung_system_for_bracket_id")
-    r3 = [r.value for r in returns_of(g3) if isinstance(r.value, ast.Tuple) and len(r.value.elts) == 2]
-    ok3 = len(r3) == 1 and isinstance(r3[0].elts[0], ast.Subscript) and U(r3[0].elts[0].value) == "self._rung_systems"
-    if ok3:
-        sysv, skipv = U(r3[0].elts[0].slice), U(r3[0].elts[1])
-        arms = [s_ for s_ in walk_shallow(g3.node) if isinstance(s_, ast.If)]
-        ok3 = len(arms) == 1
-        if ok3:
-            def arm_vals(body):
-                return {U(t.targets[0]): U(t.value) for t in body if isinstance(t, ast.Assign)}
-            a_, b_ = arm_vals(arms[0].body), arm_vals(arms[0].orelse)
-            per, shared = (a_, b_) if ("truth", "self._rung_system_per_bracket", True) in atoms_of(arms[0].test, True) else (b_, a_)
-            ok3 = per.get(sysv) == "bracket_id" and per.get(skipv) == "0" and shared.get(sysv) == "0" and shared.get(skipv) == "bracket_id"
-    rep.put(ok3, "S5", "agreement", "_get_rung_system_for_bracket_id: own rung system without skipping, or the shared one skipping `bracket` rungs", g3, None, "",
-            "the pair (rung system, number of lowest rungs to skip) is not (own, 0) / (shared, bracket id)")
+    bracket_offset(ctx, rep, "S5")
     rep.put(ok, "S5", "taint", "HyperbandBracketManager.on_task_report: skip_rungs comes from the reporting trial's bracket", h, None, "")
-    g3 = P.method("HyperbandBracketManager", "_get_rung_system_for_bracket_id")
-    cf = cfg_of(g3)
-    r3 = [r.value for r in returns_of(g3) if isinstance(r.value, ast.Tuple) and len(r.value.elts) == 2]
-    skn = U(r3[0].elts[1]) if r3 else "?"
-    sk = [n for n in cf.nodes if n.kind == "stmt" and isinstance(n.ast, ast.Assign) and U(n.ast.targets[0]) == skn]
-    vals = {U(n.ast.value): ctx.facts(g3).at(n.id) for n in sk}
-    ok = set(vals) == {"0", "bracket_id"} and any(a[0] == "truth" and a[2] is False for a in vals.get("bracket_id", ()))
-    rep.put(ok, "S5", "agreement", "bracket offset: skip_rungs = bracket_id when all brackets share one rung system", g3, None, "")
 
 
 def s6(ctx, rep):
@@ -486,6 +464,35 @@ def s11(ctx, rep):
                 f"{detail}: the cutoff is taken from the wrong end of the best-first entry list for one of the modes")
     if n < 2:
         raise AnchorError(f"Rung.quantile: {n} mode-dependent sites (2 confirmed: q / 1-q and the window)")
+
+
+def bracket_offset(ctx, rep, clause="S5"):
+    """(rung system, number of lowest rungs to skip) for a bracket: its own system without skipping, or the shared system
+    skipping `bracket` rungs - never both offsets at once (shared with C04: a new trial's first milestone comes from here)"""
+    P = ctx.P
+    g3 = P.method("HyperbandBracketManager", "_get_rung_system_for_bracket_id")
+    r3 = [r.value for r in returns_of(g3) if isinstance(r.value, ast.Tuple) and len(r.value.elts) == 2]
+    ok3 = len(r3) == 1 and isinstance(r3[0].elts[0], ast.Subscript) and U(r3[0].elts[0].value) == "self._rung_systems"
+    if ok3:
+        sysv, skipv = U(r3[0].elts[0].slice), U(r3[0].elts[1])
+        arms = [s_ for s_ in walk_shallow(g3.node) if isinstance(s_, ast.If)]
+        ok3 = len(arms) == 1
+        if ok3:
+            def arm_vals(body):
+                return {U(t.targets[0]): U(t.value) for t in body if isinstance(t, ast.Assign)}
+            a_, b_ = arm_vals(arms[0].body), arm_vals(arms[0].orelse)
+            per, shared = (a_, b_) if ("truth", "self._rung_system_per_bracket", True) in atoms_of(arms[0].test, True) else (b_, a_)
+            ok3 = per.get(sysv) == "bracket_id" and per.get(skipv) == "0" and shared.get(sysv) == "0" and shared.get(skipv) == "bracket_id"
+    rep.put(ok3, clause, "agreement", "_get_rung_system_for_bracket_id: own rung system without skipping, or the shared one skipping `bracket` rungs", g3, None, "",
+            "the pair (rung system, number of lowest rungs to skip) is not (own, 0) / (shared, bracket id)")
+    g3 = P.method("HyperbandBracketManager", "_get_rung_system_for_bracket_id")
+    cf = cfg_of(g3)
+    r3 = [r.value for r in returns_of(g3) if isinstance(r.value, ast.Tuple) and len(r.value.elts) == 2]
+    skn = U(r3[0].elts[1]) if r3 else "?"
+    sk = [n for n in cf.nodes if n.kind == "stmt" and isinstance(n.ast, ast.Assign) and U(n.ast.targets[0]) == skn]
+    vals = {U(n.ast.value): ctx.facts(g3).at(n.id) for n in sk}
+    ok = set(vals) == {"0", "bracket_id"} and any(a[0] == "truth" and a[2] is False for a in vals.get("bracket_id", ()))
+    rep.put(ok, clause, "agreement", "bracket offset: skip_rungs = bracket_id when all brackets share one rung system", g3, None, "")
 
 
 def run(ctx, rep, tier="quick"):
